@@ -25,8 +25,15 @@ def singleFaultPlans (len : Nat) : List (List Bool) :=
 def anyBad (prog : List Stmt) (l : Nat) : Bool :=
   (singleFaultPlans (16 * (l + 2))).any (fun plan => isBad (exec l (200 * (l + 2)) prog ⟨0, .none, false⟩ plan))
 
+/-- the JSON export leaves something locked iff the regenerated `MarshalJSON` does not release -/
+def jsonBad : Bool :=
+  match runJ Generated.ExportLocks.marshalJSON {} [] with
+  | some s => s.store != 0 || s.metrics != 0
+  | none => true
+
 def handle (f : List String) : String :=
   match f with
+  | ["exp", "json", m, _] => s!"bad={b2i (m.toNat! > 0 && jsonBad)}"
   | ["exp", name, m, l] =>
     match skeletonFor name with
     | none => "BAD-CASE"
